@@ -23,7 +23,7 @@ ASSUMPTIONS = [
     'stubs/merge points of vf/simdrv.py',
 ]
 FUNCS = ['copy', 'synth', 'synth_unmerged', 'opt']
-EDITS = ['add_logic', 'rename', 'simulate_write', 'add_read_port', 'edit_result']
+EDITS = ['add_logic', 'rename', 'simulate_write', 'add_read_port', 'edit_result', 'rename_result', 'rename_source_foreign']
 
 
 def bounds(tier):
@@ -157,21 +157,27 @@ def same_trace(ob, A, before, after, assume, v, site):
 def apply_edit(case, A, B):
     """a PyRTL-API edit or simulation on one block; returns the block that must be unaffected"""
     e = case['edit']
-    if e == 'edit_result':
+    if e in ('edit_result', 'rename_result'):
         target, other = B, A
     else:
         target, other = A, B
-    with pyrtl.set_working_block(target, no_sanity_check=True):
+    # 'rename_result' / 'rename_source_foreign': the edit is made through the object's own API while the OTHER block is the
+    # working block (as it is right after a call with update_working_block=False)
+    wb = other if e in ('rename_result', 'rename_source_foreign') else target
+    with pyrtl.set_working_block(wb, no_sanity_check=True):
         if e in ('add_logic', 'edit_result'):
             ins = sorted(target.wirevector_subset(pyrtl.Input), key=lambda w: w.name)
             if ins:
                 x = ins[0]
                 o = pyrtl.Output(len(x), 'vf_extra_out')
                 o <<= ~x
-        elif e == 'rename':
+        elif e in ('rename', 'rename_result', 'rename_source_foreign'):
             outs = sorted(target.wirevector_subset(pyrtl.Output), key=lambda w: w.name)
             if outs:
                 outs[0].name = 'vf_renamed'
+            regs = sorted(target.wirevector_subset(pyrtl.Register), key=lambda w: w.name)
+            if regs and e != 'rename':
+                regs[0].name = 'vf_renamed_reg'
         elif e == 'add_read_port':
             mems = list(simdrv.mems_of(target).values())
             if mems:
@@ -322,7 +328,7 @@ def replay(cex):
             return fingerprint(B) != fpB, 'result fingerprint changed by an edit of the source'
         return fingerprint(A) != fpA, 'source fingerprint changed by an edit of the result'
     pair, mk = make_pair(case, A, B)
-    if ':edit:' in site and case['edit'] != 'edit_result':
+    if ':edit:' in site and case['edit'] not in ('edit_result', 'rename_result'):
         ta, _, _ = __import__('vf.concrete', fromlist=['x']).sim_concrete(A, case['K'], cex['model'], reg_init='reset', track='io')
         apply_edit(case, A, B)
     step = ':step' in site
